@@ -36,6 +36,10 @@ func SplitRawStatements(filepath, s string) ([]*RawStatement, error) {
 				return nil, err
 			}
 			firstPos = lex.Token.Pos
+			if len(lex.Token.Comments) > 0 {
+				// Comments between ';' and the next statement belong to that statement.
+				firstPos = lex.Token.Comments[0].Pos
+			}
 			continue
 		}
 
